@@ -20,13 +20,13 @@ import (
 	"time"
 
 	"github.com/transparency-dev/witness/internal/config"
+	"github.com/transparency-dev/witness/internal/distribute/rest"
 	"github.com/transparency-dev/witness/internal/feeder"
 	"github.com/transparency-dev/witness/internal/feeder/pixelbt"
 	"github.com/transparency-dev/witness/internal/feeder/rekor"
 	"github.com/transparency-dev/witness/internal/feeder/serverless"
 	"github.com/transparency-dev/witness/internal/feeder/sumdb"
 	"github.com/transparency-dev/witness/internal/feeder/tiles"
-	"github.com/transparency-dev/witness/omniwitness"
 	"github.com/transparency-dev/witness/verifharness/internal/ref"
 	"github.com/transparency-dev/witness/verifharness/internal/stublog"
 	"github.com/transparency-dev/witness/verifharness/internal/world"
@@ -161,6 +161,9 @@ func hostileChild(args []string) error {
 		return err
 	}
 	rng := rand.New(rand.NewSource(*seed))
+	if s.Feeder == "distributor" {
+		return hostileDistributor(s, rng, *seed)
+	}
 	p := world.Params{Logs: []string{"l1"}, MaxSize: 1, NBranch: 1, MaxLines: 6, NWitKeys: 2, Seed: *seed, RunTag: "hostile", Origins: map[string]string{}}
 	if s.Feeder == "sumdb" {
 		p.Origins["l1"] = "go.sum database tree"
@@ -268,12 +271,105 @@ func hostileChild(args []string) error {
 	}
 	feed := map[string]func(context.Context, config.Log, feeder.Witness, *http.Client, time.Duration) error{
 		"sumdb": sumdb.FeedLog, "tiles": tiles.FeedLog, "serverless": serverless.FeedLog, "pixel": pixelbt.FeedLog, "rekor": rekor.FeedLog}[s.Feeder]
-	ferr := feed(ctx, lc, omniwitness.VerifWitnessAdapter(wit), &http.Client{Timeout: 2 * time.Second}, 0)
+	ferr := feed(ctx, lc, witnessAdapterOf(wit), &http.Client{Timeout: 2 * time.Second}, 0)
 	if ferr == nil {
 		say("OUTCOME result")
 	} else {
 		say("OUTCOME error %s", strings.ReplaceAll(ferr.Error(), "\n", " "))
 	}
+	return nil
+}
+
+// hostileDistributor runs ONE cycle of the real REST distributor, the way Main runs it (process context without a deadline, an HTTP
+// client with a timeout), in front of a real witness that holds a checkpoint, against a distributor that answers with the given class.
+func hostileDistributor(s hostileScen, rng *rand.Rand, seed int64) error {
+	w := world.New(world.Params{Logs: []string{"l1"}, MaxSize: 1, NBranch: 1, MaxLines: 6, NWitKeys: 2, Seed: seed, RunTag: "hostile-dist"})
+	l := w.Logs["l1"]
+	st, _ := newStore("inmem", "")
+	wit, err := newWitness(w, st.p)
+	if err != nil {
+		return err
+	}
+	r := l.Trees[0].Root(heldSize)
+	text := ref.CheckpointText(l.Origin, heldSize, r[:], "")
+	if _, err := wit.Update(context.Background(), l.ID, 0, []byte(text+"\n"+l.Key.SignLegacy(text)), nil); err != nil {
+		return fmt.Errorf("set-up: %v", err)
+	}
+	_, witV, err := witnessSigners(w)
+	if err != nil {
+		return err
+	}
+	hops := 0
+	other := httptest.NewServer(http.HandlerFunc(func(rw http.ResponseWriter, r *http.Request) { rw.WriteHeader(200) }))
+	defer other.Close()
+	srv := httptest.NewServer(http.HandlerFunc(func(rw http.ResponseWriter, r *http.Request) {
+		hijackWrite := func(b []byte) {
+			if hj, ok := rw.(http.Hijacker); ok {
+				c, _, _ := hj.Hijack()
+				c.Write(b)
+				c.Close()
+			}
+		}
+		switch s.Data {
+		case "200":
+			rw.WriteHeader(200)
+		case "status404":
+			http.Error(rw, "no such log", 404)
+		case "status500":
+			http.Error(rw, "boom", 500)
+		case "empty":
+			hijackWrite(nil)
+		case "random":
+			b := make([]byte, 200)
+			rng.Read(b)
+			hijackWrite(b)
+		case "oversized":
+			rw.WriteHeader(200)
+			rw.Write(make([]byte, 8<<20))
+		case "redirect-loop":
+			hops++
+			http.Redirect(rw, r, fmt.Sprintf("%s?hop=%d", r.URL.Path, hops), http.StatusTemporaryRedirect)
+		case "redirect-elsewhere":
+			http.Redirect(rw, r, other.URL+"/elsewhere", http.StatusPermanentRedirect)
+		case "retry-after-seconds":
+			rw.Header().Set("Retry-After", []string{"86400", "4294967295", "31536000"}[rng.Intn(3)])
+			rw.WriteHeader([]int{429, 503}[rng.Intn(2)])
+		case "retry-after-date":
+			rw.Header().Set("Retry-After", time.Now().Add(72*time.Hour).UTC().Format(http.TimeFormat))
+			rw.WriteHeader([]int{429, 503}[rng.Intn(2)])
+		case "slow-headers":
+			select {
+			case <-time.After(60 * time.Second):
+			case <-r.Context().Done():
+			}
+		case "slow-body":
+			rw.WriteHeader(200)
+			if f, ok := rw.(http.Flusher); ok {
+				f.Flush()
+			}
+			select {
+			case <-time.After(60 * time.Second):
+			case <-r.Context().Done():
+			}
+		default:
+			panic("unknown distributor answer " + s.Data)
+		}
+	}))
+	defer srv.Close()
+	lc, err := config.NewLog(l.Origin, l.Key.VKey(), "http://log.invalid/")
+	if err != nil {
+		return err
+	}
+	d, err := rest.NewDistributor(srv.URL, &http.Client{Timeout: 2 * time.Second}, []config.Log{lc}, witV, witnessAdapterOf(wit))
+	if err != nil {
+		return err
+	}
+	if derr := d.DistributeOnce(context.Background()); derr == nil {
+		say("OUTCOME result")
+	} else {
+		say("OUTCOME error %s", strings.ReplaceAll(derr.Error(), "\n", " "))
+	}
+	os.Exit(0) // the cycle has ended; do not wait for the stub's slow handlers (httptest's Close would)
 	return nil
 }
 
@@ -345,8 +441,15 @@ func hostileMain(args []string) error {
 			if outcome == "hang" { // a second, fresh attempt with a longer deadline before a hang is reported
 				outcome, detail = runHostileChild(self, s, *seed+1, 40*time.Second)
 			}
-			res[i] = cycleEvent{E: "cycle", Run: fmt.Sprintf("h%d", i), K: i, Comp: "feeder/" + s.Feeder, Wit: s.Wit, CP: s.CP, Data: s.Data, Outcome: outcome,
+			comp := "feeder/" + s.Feeder
+			if s.Feeder == "distributor" {
+				comp = "distributor"
+			}
+			res[i] = cycleEvent{E: "cycle", Run: fmt.Sprintf("h%d", i), K: i, Comp: comp, Wit: s.Wit, CP: s.CP, Data: s.Data, Outcome: outcome,
 				Sig: fmt.Sprintf("%s/%s/%s", s.Feeder, s.CP, outcome), Detail: detail}
+			if s.Feeder == "distributor" {
+				res[i].Sig = fmt.Sprintf("distributor/%s/%s", s.Data, outcome)
+			}
 			if outcome == "result" || outcome == "error" {
 				res[i].Sig = "-"
 			}
